@@ -50,7 +50,7 @@ type Resolved struct {
 	Headers     map[string]string `json:"headers"`
 	Compression string            `json:"compression"` // "gzip" or "none"
 	Timeout     time.Duration     `json:"timeout"`
-	AltPath string `json:"alt_path,omitempty"` // a second admitted path (an option URL without a path: the signal default, or "/")
+	AltPath     string            `json:"alt_path,omitempty"` // a second admitted path (an option URL without a path: the signal default, or "/")
 }
 
 // Obs is what an exporter harness reports for one configuration point.
